@@ -136,6 +136,25 @@ theorem C15_market_sell_beyond_depth_rejected (c : TokenCfg) (s : DState) (r : R
   unfold sell
   simp [hopen, hck]
 
+/-- … and a market order within the displayed total passes `check_transaction` (any state, either side): the only thing
+    that can still stop a buy is the cash check, a sell the holding check -/
+theorem C15_market_order_within_depth_checked (c : TokenCfg) (book : List Instr) (r : Req) (ins : Instr) (isBuy : Bool)
+    (avail : List Level)
+    (hfind : findInstr book r.name = some ins) (hso : ins.stateOpen = true)
+    (hmin : c.minAmount ≤ r.amount) (hm : r.priceTok = none ∧ r.priceUsd = none)
+    (hav : availSide DCtx.exact (normInstr DCtx.exact ins) r.mult isBuy = .ok avail)
+    (hdepth : roundDec c.tradeExp r.amount ≤ sizeSum avail) :
+    checkTx DCtx.exact c book r isBuy =
+      .ok { amount := roundDec c.tradeExp r.amount, ins := normInstr DCtx.exact ins, price := none } := by
+  unfold checkTx
+  simp only [hfind]
+  have h1 : (normInstr DCtx.exact ins).stateOpen = true := hso
+  have h2 : ¬ r.amount < c.minAmount := not_lt.mpr hmin
+  have h3 : tradeAmount c r.amount = roundDec c.tradeExp r.amount := by unfold tradeAmount; rw [if_neg h2]
+  have h4 : ¬ roundDec c.tradeExp r.amount > sizeSum avail := not_lt.mpr hdepth
+  simp only [h1, Bool.not_true, Bool.false_eq_true, if_false, h2, reqPrice, hm.1, hm.2, hav, h3,
+    sumSizes_exact, h4]
+
 /-- **fills shrink the visible book for the following orders (buy side)**: after an accepted buy, a following market
     buy of the same instrument is checked against the asks the first one left — the normalised asks minus the fills,
     whose displayed total is the old total minus the filled amount — and is rejected with "insufficient-depth", changing
@@ -148,7 +167,9 @@ theorem C15_following_order_sees_shrunken_book (c : TokenCfg) (s s' : DState) (r
       (∃ ins', findInstr s'.book r.name = some ins' ∧
         sizeSum (normSide DCtx.exact true ins'.asks) = sizeSum (normSide DCtx.exact true ins.asks) - fillSum fills) ∧
       (sizeSum (normSide DCtx.exact true ins.asks) - fillSum fills < roundDec c.tradeExp r2.amount →
-        buy DCtx.exact c s' r2 = (.error (.demeter "insufficient-depth"), s')) := by
+        buy DCtx.exact c s' r2 = (.error (.demeter "insufficient-depth"), s')) ∧
+      (roundDec c.tradeExp r2.amount ≤ sizeSum (normSide DCtx.exact true ins.asks) - fillSum fills →
+        ∃ ck, checkTx DCtx.exact c s'.book r2 true = .ok ck ∧ ck.amount = roundDec c.tradeExp r2.amount ∧ ck.price = none) := by
   obtain ⟨ins, hfind, hbook⟩ := C15_buy_book DCtx.exact c s s' r fills fee h
   obtain ⟨hopen, ck, hck, fills', _, _, hfills, _, _, hres, _, _, hs'⟩ := buy_ok h
   simp only [Res.trade.injEq] at hres
@@ -170,11 +191,19 @@ theorem C15_following_order_sees_shrunken_book (c : TokenCfg) (s s' : DState) (r
   have hfind' : findInstr s'.book r.name =
       some { ins with asks := newOrderList DCtx.exact (normSide DCtx.exact true ins.asks) fills } := by
     rw [hbook, findInstr_setAsks, hfind]; rfl
-  refine ⟨ins, hfind, ⟨_, hfind', ?_⟩, ?_⟩
+  have hso' : ins.stateOpen = true := by rw [hnorm] at hso; exact hso
+  refine ⟨ins, hfind, ⟨_, hfind', ?_⟩, ?_, ?_⟩
   · simp only [normSide_newOrderList]; exact hsum
+  rotate_left
+  · intro hle
+    refine ⟨_, C15_market_order_within_depth_checked c s'.book r2
+      { ins with asks := newOrderList DCtx.exact (normSide DCtx.exact true ins.asks) fills } true
+      (newOrderList DCtx.exact (normSide DCtx.exact true ins.asks) fills)
+      (by rw [hn]; exact hfind') hso' hmin hm
+      (by simp only [availSide, availAsks, hmult, normInstr_asks, normSide_newOrderList, if_true])
+      (by rw [hsum]; exact hle), rfl, rfl⟩
   · intro hlt
     have hflag : s'.flagOpen = true := by rw [hs']; exact hopen
-    have hso' : ins.stateOpen = true := by rw [hnorm] at hso; exact hso
     apply C15_market_buy_beyond_depth_rejected c s' r2
       { ins with asks := newOrderList DCtx.exact (normSide DCtx.exact true ins.asks) fills }
       hflag (by rw [hn]; exact hfind') hso' hmin hm
@@ -191,7 +220,9 @@ theorem C15_following_sell_sees_shrunken_book (c : TokenCfg) (s s' : DState) (r 
       (∃ ins', findInstr s'.book r.name = some ins' ∧
         sizeSum (normSide DCtx.exact false ins'.bids) = sizeSum (normSide DCtx.exact false ins.bids) - fillSum fills) ∧
       (sizeSum (normSide DCtx.exact false ins.bids) - fillSum fills < roundDec c.tradeExp r2.amount →
-        sell DCtx.exact c s' r2 = (.error (.demeter "insufficient-depth"), s')) := by
+        sell DCtx.exact c s' r2 = (.error (.demeter "insufficient-depth"), s')) ∧
+      (roundDec c.tradeExp r2.amount ≤ sizeSum (normSide DCtx.exact false ins.bids) - fillSum fills →
+        ∃ ck, checkTx DCtx.exact c s'.book r2 false = .ok ck ∧ ck.amount = roundDec c.tradeExp r2.amount ∧ ck.price = none) := by
   obtain ⟨ins, hfind, hbook, _⟩ := C15_sell_book DCtx.exact c s s' r fills fee h
   obtain ⟨hopen, ck, _, bids, hck, _, _, hbids, fills', _, _, hfills, _, _, hres, hs'⟩ := sell_ok h
   simp only [Res.trade.injEq] at hres
@@ -212,8 +243,17 @@ theorem C15_following_sell_sees_shrunken_book (c : TokenCfg) (s s' : DState) (r 
   have hfind' : findInstr s'.book r.name =
       some { ins with bids := newOrderList DCtx.exact (normSide DCtx.exact false ins.bids) fills } := by
     rw [hbook, findInstr_setBids, hfind]; rfl
-  refine ⟨ins, hfind, ⟨_, hfind', ?_⟩, ?_⟩
+  have hso' : ins.stateOpen = true := by rw [hnorm] at hso; exact hso
+  refine ⟨ins, hfind, ⟨_, hfind', ?_⟩, ?_, ?_⟩
   · simp only [normSide_newOrderList]; exact hsum
+  rotate_left
+  · intro hle
+    refine ⟨_, C15_market_order_within_depth_checked c s'.book r2
+      { ins with bids := newOrderList DCtx.exact (normSide DCtx.exact false ins.bids) fills } false
+      (newOrderList DCtx.exact (normSide DCtx.exact false ins.bids) fills)
+      (by rw [hn]; exact hfind') hso' hmin hm
+      (by simp only [availSide, availBids, hmult, normInstr_bids, normSide_newOrderList, Bool.false_eq_true, if_false])
+      (by rw [hsum]; exact hle), rfl, rfl⟩
   · intro hlt
     have hflag : s'.flagOpen = true := by rw [hs']; exact hopen
     apply C15_market_sell_beyond_depth_rejected c s' r2
